@@ -438,8 +438,9 @@ class LatBndTimeRoundTrip(TimeRoundTrip):
 
 def obligations(tier):
     obs = []
-    years = (1999, 2004, 2069) if tier == 'quick' else \
-        (1970, 1999, 2000, 2003, 2004, 2069)
+    # 1970 and 2069 are the ends of the two-digit-year window
+    years = (1970, 1999, 2004, 2069) if tier == 'quick' else \
+        (1970, 1971, 1999, 2000, 2003, 2004, 2068, 2069)
     for y in years:
         for T in ((1, 2) if tier == 'quick' else (1, 2, 3)):
             for et in (True, False):
